@@ -907,6 +907,12 @@ Proof.
   exists N, S, pivot, avoid. exact H.
 Qed.
 
+(* on the same instance the fixed procedure answers after five iterations *)
+Lemma stall_fixed_answer :
+  symbolic_test 5 stall_net stall_space stall_pivot stall_avoid [] [] =
+  TSome [[false; false; false]; [true; false; false]; [true; true; false]; [false; true; false]].
+Proof. vm_compute. reflexivity. Qed.
+
 Print Assumptions symbolic_test_some.
 Print Assumptions symbolic_test_none.
 Print Assumptions symbolic_test_terminates.
